@@ -154,9 +154,9 @@ def audit(prop: str, tier: str):
     rc, out = lean_file(audit_file)
     # parse
     found = {}
-    for m in re.finditer(r"^'(.+?)' depends on axioms: \[([^\]]*)\]", out, flags=re.S | re.M):
+    for m in re.finditer(r"^'([^\n]+?)' depends on axioms: \[([^\]]*)\]", out, flags=re.S | re.M):
         found[m.group(1)] = {a.strip() for a in m.group(2).replace("\n", " ").split(",") if a.strip()}
-    for m in re.finditer(r"^'(.+?)' does not depend on any axioms", out, flags=re.M):
+    for m in re.finditer(r"^'([^\n]+?)' does not depend on any axioms", out, flags=re.M):
         found[m.group(1)] = set()
     for n in names:
         if n not in found:
